@@ -200,7 +200,7 @@ func (s vfServer) YAML() string {
 var (
 	vfHostsBare   = []string{"a.com", "b.com", "x.a.com", "10.0.0.1", "a.com80", "B.com"}
 	vfHostRegexps = []string{`^[^.]+\.a\.com$`, `a`, `.*`, `^b\.com$`, `^10\.`, `80$`, `^a\.com$`, `^::1$`}
-	vfPathsPool   = []string{"/", "/a", "/a/b", "/ab", "/b", "/a/", "/a/b/c", "/b/a", "/a b"}
+	vfPathsPool   = []string{"/", "/a", "/a/b", "/ab", "/b", "/a/", "/a/b/c", "/b/a", "/a b", "/.well-known/a"}
 	vfPathRegexps = []string{`^/a/(.*)$`, `/([a-z]+)`, `^/b$`, `^/(a|b)/?`, `.*`, `^/a`, `b$`}
 	vfRewrites    = []string{"/r", "/r/$1", "/", "/x${1}y", "/r/"}
 	vfMethodsAll  = []string{"GET", "HEAD", "POST", "PUT", "PATCH", "DELETE", "CONNECT", "OPTIONS", "TRACE"}
@@ -428,7 +428,7 @@ func vfGenReq(t *rapid.T, remotes []string) vfReq {
 	r := vfReq{}
 	r.Method = rapid.SampledFrom(append(append([]string{}, vfMethodsAll[:6]...), "GET", "GET", "PURGE")).Draw(t, "req.method")
 	r.Host = vfGenReqHost(t)
-	r.Path = rapid.SampledFrom(append(append([]string{}, vfPathsPool...), "/a/b/c/d", "/c", "/abc", "/a//b", "/a%20b", "/a b", "/a%2520b")).Draw(t, "req.path")
+	r.Path = rapid.SampledFrom(append(append([]string{}, vfPathsPool...), "/a/b/c/d", "/c", "/abc", "/a//b", "/a%20b", "/a b", "/a%2520b", "/.well-known/a", "/.well-known/b/c")).Draw(t, "req.path")
 	for _, k := range vfHdrKeys {
 		switch rapid.IntRange(0, 6).Draw(t, "req.h."+k) {
 		case 0, 1: // absent
